@@ -181,6 +181,14 @@ def run_impl(p):
                 m = ra.to_numpy_array()
                 return RaggedArray.from_numpy_array(m)
             o["numpy_roundtrip"] = guarded(nprt)
+            def nprt_rows():
+                # the converted matrix must be a fully working array: rows selected one by one, reversed, by list and by mask
+                r = nprt()
+                n = len(r)
+                if n == 0:
+                    return []
+                return [[r[i].tolist() for i in range(n)], r[::-1].tolist(), r[[0, n - 1]].tolist(), r[np.arange(n) % 2 == 0].tolist()]
+            o["numpy_roundtrip_rows"] = guarded(nprt_rows)
             def nprt_layouts():
                 # the same matrix in other memory layouts (Fortran order, a transposed view of its transpose, every
                 # second row of a taller matrix, read-only): from_numpy_array must read it by (row, column), not by memory
@@ -287,6 +295,14 @@ def oracle(p):
         else:
             o["numpy_roundtrip"] = refuse()
         o["numpy_roundtrip_layouts"] = o["numpy_roundtrip"]
+        if len(lens) == 0:
+            o["numpy_roundtrip_rows"] = canon([])
+        elif all(l == lens[0] for l in lens):
+            rl = [np.array(r, dtype=p["dtype"]).tolist() for r in rows]
+            n = len(rl)
+            o["numpy_roundtrip_rows"] = canon([rl, rl[::-1], [rl[0], rl[n - 1]], [rl[i] for i in range(n) if i % 2 == 0]])
+        else:
+            o["numpy_roundtrip_rows"] = refuse()
         if sum(lens) > 0:
             o["from_ndarray_rows"] = o["tolist"]
     return o
